@@ -839,35 +839,9 @@ def nontrivial(line):
 
 
 # ------------------------------------------------------------------------------------------------ regions of the known findings
-def _f(line):
-    f = line.split(SEP)
-    return f[1], (unwire(f[3]) if len(f) > 3 else ""), f[4:]
-
-
-def _aligned_find(line):
-    op, s, a = _f(line)
-    return op in ("find", "rfind") and a[3] == "1"
-
-
-REGIONS = {"alignedFind": _aligned_find}
-
-
-def in_known_region(line):
-    f = line.split(SEP)
-    if f[1] in ("tables", "seq", "value", "pack"):
-        return False
-    return any(p(line) for p in REGIONS.values())
-
-
-def compare(out, model_out, line):
-    """IMPL ≍ MODEL.  Inside a region where the model transcribes a known deviation, an implementation that has
-    been repaired (and now gives what the property demands) is not a disagreement either."""
-    if out == model_out:
-        return True
-    if in_known_region(line):
-        f = line.split(SEP)
-        return out == expected(f[1], unwire(f[3]), f[4:], True)
-    return False
+# none: every defect found while building this check has been repaired in /repo (known_findings.d/C12.json lists
+# them with status "fixed"; their witnesses run on every check).  IMPL must equal MODEL character for character.
+REGIONS = {}
 
 
 # ------------------------------------------------------------------------------------------------ generators
